@@ -31,10 +31,14 @@ var c18Universe = map[byte]*cluster.Member{
 	'B': {ID: "B", Host: "hostB:4000", Kinds: []string{"k1", "k2"}, Region: "default"},
 	'C': {ID: "C", Host: "hostC:4000", Kinds: []string{"k2", "k3"}, Region: "default"}, // shares k2 with B: a kind no local member has
 	'D': {ID: "D", Host: "hostD:4000", Kinds: nil, Region: "default"},
+	// identity is the member ID: another ID on B's host (the node restarted under a new id) is another member,
+	// the same ID on another host (a node with a fixed id that came back elsewhere) is the same member
+	'E': {ID: "E", Host: "hostB:4000", Kinds: []string{"k4"}, Region: "default"},
+	'b': {ID: "B", Host: "hostB2:4000", Kinds: []string{"k1", "k2"}, Region: "default"},
 }
 
 // every subset containing the observing node A, plus lists with duplicate entries
-var c18Snapshots = []string{"A", "AB", "AC", "AD", "ABC", "ABD", "ACD", "ABCD", "ABB", "AAC", "ABCC", "DDA"}
+var c18Snapshots = []string{"A", "AB", "AC", "AD", "ABC", "ABD", "ACD", "ABCD", "ABB", "AAC", "ABCC", "DDA", "AE", "ABE", "Ab", "AbC"}
 
 func c18Members(snap string) []*cluster.Member {
 	var out []*cluster.Member
@@ -48,7 +52,7 @@ func c18Members(snap string) []*cluster.Member {
 func idSet(snap string) map[string]bool {
 	m := map[string]bool{}
 	for i := 0; i < len(snap); i++ {
-		m[string(snap[i])] = true
+		m[c18Universe[snap[i]].ID] = true
 	}
 	return m
 }
@@ -117,8 +121,7 @@ func engMembership(depth int) vsched.Instance {
 					leaves[ev.Member.ID]++
 				}
 			}
-			for id := range c18Universe {
-				s := string(id)
+			for _, s := range []string{"A", "B", "C", "D", "E"} {
 				wj, wl := 0, 0
 				if want[s] && !view[s] {
 					wj = 1
@@ -144,8 +147,8 @@ func engMembership(depth int) vsched.Instance {
 			// kinds
 			for _, kind := range []string{"k1", "k2", "k3", "k4"} {
 				wantK := false
-				for id := range want {
-					for _, mk := range c18Universe[id[0]].Kinds {
+				for i := 0; i < len(snap); i++ {
+					for _, mk := range c18Universe[snap[i]].Kinds {
 						wantK = wantK || mk == kind
 					}
 				}
@@ -169,13 +172,13 @@ func engMembership(depth int) vsched.Instance {
 }
 
 func init() {
-	Register(&Job{Name: "C18/cluster/snapshot-histories-3", Prop: "C18", Bound: 0, BoundT: 1, Budget: 50, BudgetT: 600, Shards: 12,
-		Desc: "real Agent behind the real Cluster API with a stub provider: all sequences of <=3 membership snapshots out of 12 (every subset of {A,B,C,D} containing the observing node A, plus lists with duplicate entries), fresh Member objects each time; after every snapshot Members(), the MemberJoin/LeaveEvents since the previous one and HasKind(k1..k4) are compared with the set model",
+	Register(&Job{Name: "C18/cluster/snapshot-histories-3", Prop: "C18", Bound: 0, BoundT: 1, Budget: 50, BudgetT: 600, Shards: 16,
+		Desc: "real Agent behind the real Cluster API with a stub provider: all sequences of <=3 membership snapshots out of 16 (every subset of {A,B,C,D} containing the observing node A, lists with duplicate entries, a member with another id on B's host, B's id on another host), fresh Member objects each time; after every snapshot Members(), the MemberJoin/LeaveEvents since the previous one and HasKind(k1..k4) are compared with the set model",
 		Make: func() vsched.Instance { return engMembership(3) }})
-	Register(&Job{Name: "C18/cluster/snapshot-histories-4", Prop: "C18", Bound: 0, BoundT: 0, Budget: 50, BudgetT: 900, Shards: 12,
-		Desc: "all sequences of <=4 membership snapshots out of 12 (22620 histories)", Make: func() vsched.Instance { return engMembership(4) }})
-	Register(&Job{Name: "C18/cluster/snapshot-histories-5", Prop: "C18", Tier: "thorough", Bound: 0, BoundT: 0, Budget: 50, BudgetT: 1200, Shards: 12,
-		Desc: "all sequences of <=5 membership snapshots out of 12 (271452 histories)", Make: func() vsched.Instance { return engMembership(5) }})
+	Register(&Job{Name: "C18/cluster/snapshot-histories-4", Prop: "C18", Bound: 0, BoundT: 0, Budget: 50, BudgetT: 900, Shards: 16,
+		Desc: "all sequences of <=4 membership snapshots out of 16 (69904 histories)", Make: func() vsched.Instance { return engMembership(4) }})
+	Register(&Job{Name: "C18/cluster/snapshot-histories-5", Prop: "C18", Tier: "thorough", Bound: 0, BoundT: 0, Budget: 50, BudgetT: 1200, Shards: 16,
+		Desc: "all sequences of <=5 membership snapshots out of 16 (1118480 histories)", Make: func() vsched.Instance { return engMembership(5) }})
 	_ = fmt.Sprint
 }
 
@@ -241,6 +244,14 @@ func engProvider(depth int) vsched.Instance {
 		k = &Kit{inRecv: map[string]bool{}, exitVC: map[string]vsched.VC{}, incs: map[string]int{}}
 		var pool []poolMsg
 		var reports [][]*cluster.Member
+		// every member list the provider handed out (to the agent, in a handshake reply), with what it said
+		// at that moment: a message that was delivered belongs to its receiver and must not change later
+		type keptList struct {
+			what string
+			list []*cluster.Member
+			ids  string
+		}
+		var kept []keptList
 		e, err := actor.NewEngine(actor.NewEngineConfig().WithRemote(&poolRemoter{addr: c20Peers['A'].Host, pool: &pool}))
 		if err != nil {
 			panic(err)
@@ -262,6 +273,7 @@ func engProvider(depth int) vsched.Instance {
 				if m, ok := ctx.Message().(*cluster.Members); ok {
 					vsched.Touch("reports")
 					reports = append(reports, m.Members)
+					kept = append(kept, keptList{"the list reported to the agent", m.Members, memberIDs(m.Members)})
 				}
 			})
 		}
@@ -336,6 +348,7 @@ func engProvider(depth int) vsched.Instance {
 				switch m := pm.msg.(type) {
 				case *cluster.Members:
 					replies++
+					kept = append(kept, keptList{"the handshake reply to " + pidStr(pm.target), m.Members, memberIDs(m.Members)})
 					if ev[0] != 'h' {
 						bad = append(bad, V("provider/unexpected-outbound-member-list", "history %v: a member list was sent to %s", hist, pidStr(pm.target)))
 					} else {
@@ -366,6 +379,12 @@ func engProvider(depth int) vsched.Instance {
 				}
 			}
 			states = append(states, want)
+		}
+		for _, kl := range kept {
+			if now := memberIDs(kl.list); now != kl.ids {
+				bad = append(bad, V("provider/delivered-member-list-changed-afterwards", "history %v: %s said %s when it was delivered and says %s now", hist, kl.what, kl.ids, now))
+				break
+			}
 		}
 	}
 	check := func(r *vsched.Result) []vsched.Violation {
@@ -674,7 +693,9 @@ func (w *c19World) enabledOps() []c19Op {
 					for _, m := range d.Members {
 						if a.sel >= 0 {
 							if m.ID == w.nodes[a.sel].id {
-								return m
+								// an equal Member that is not the very object of d.Members, as a caller that
+								// remembered b.Member() would hand back
+								return &cluster.Member{ID: m.ID, Host: m.Host, Kinds: append([]string{}, m.Kinds...), Region: m.Region}
 							}
 							continue
 						}
